@@ -43,7 +43,7 @@ class G:
     def prim(self):
         r = self.r
         c = r.choice(["bool", "i32", "i64", "f32", "f64", "String", "u16", "u32", "u64", "i8", "i16", "usize",
-                      "bytes", "bytes", "fixed", "logical", "logical", "logical", "i64", "i32", "String"])
+                      "bytes", "bytes", "fixed", "fixedlogical", "logical", "logical", "logical", "i64", "i32", "String"])
         AVRO = {"bool": "boolean", "i32": "int", "i64": "long", "f32": "float", "f64": "double", "String": "string",
                 "u16": "int", "u32": "long", "u64": "long", "i8": "int", "i16": "int", "usize": "long"}
         if c == "bytes":
@@ -51,6 +51,8 @@ class G:
         if c == "fixed":
             n = r.choice([1, 2, 4, 12, 16, 32])
             return dict(ty=f"[u8; {n}]", attrs=['#[serde(with = "serde_bytes")]'], union=False, avro=f"fixed({n})")
+        if c == "fixedlogical":
+            return self.fixed_logical()
         if c == "logical":
             k = r.choice(["Uuid", "Date", "TimeMillis", "TimeMicros", "TimestampMillis", "TimestampMicros", "decimal", "custom"])
             if k == "Uuid":
@@ -66,6 +68,14 @@ class G:
                             genexpr=f"crate::gen_decimal(r, {scale})", avro=f"bytes/decimal({scale},28)")
             return dict(ty="String", attrs=['#[avro_schema(logical_type = "my-custom-type")]'], union=False, avro="string/my-custom-type")
         return dict(ty=c, attrs=[], union=False, avro=AVRO[c])
+
+    def fixed_logical(self):
+        """a byte-array field carrying a logical type: the derive gives it its own named fixed definition"""
+        r = self.r
+        if r.random() < 0.5:
+            return dict(ty="[u8; 12]", attrs=['#[avro_schema(logical_type = "Duration")]', '#[serde(with = "serde_bytes")]'], union=False, avro="fixed(12)/duration")
+        n = r.choice([2, 4, 16])
+        return dict(ty=f"[u8; {n}]", attrs=['#[avro_schema(logical_type = "my-fixed-type")]', '#[serde(with = "serde_bytes")]'], union=False, avro=f"fixed({n})/my-fixed-type")
 
     def named_ref(self, allow_union=True):
         cands = [t for t in self.types if not t.generic and (allow_union or not t.is_union)]
@@ -271,6 +281,16 @@ class G:
         vis = "" if self.private_generics else "pub "
         fields = [("a", "T"), ("b", r.choice(["Vec<T>", "Option<T>", "i32", "String"])), ("c", r.choice(["i64", "Box<T>", "bool"]))]
         lines = [f"\tpub {n}: {ty}," for n, ty in fields]
+        # fields that own a sub-definition (named after the struct and the field): byte arrays with a logical type, plain byte arrays
+        for fname in ("d", "e"):
+            roll = r.random()
+            if roll < 0.35:
+                fl = self.fixed_logical()
+                lines += [f"\t{a}" for a in fl["attrs"]] + [f"\tpub {fname}: {fl['ty']},"]
+                fields.append((fname, fl["ty"]))
+            elif roll < 0.5:
+                lines += ['\t#[serde(with = "serde_bytes")]', f"\tpub {fname}: [u8; {r.choice([3, 8])}],"]
+                fields.append((fname, "fixed"))
         t.decl = "\n".join([self.DERIVES, f"{vis}struct {t.name}<T> {{"] + lines + ["}"])
         gens = "\n".join(f"\t\t\t{n}: Gen::gen(r, d + 1)," for n, _ in fields)
         t.genimpl = f"impl<T: Gen> Gen for {t.name}<T> {{\n\tfn gen(r: &mut Rng, d: usize) -> Self {{\n\t\t{t.name} {{\n{gens}\n\t\t}}\n\t}}\n}}"
